@@ -182,6 +182,15 @@ CORPUS = [
          flags={}, rets=[1] * 3, fails=[], maxc=1, is_async=False, mode="exec", target=None, exclude=[2], root=None),
     dict(kind="sched", n=3, edges=[[0, 2]], attrs=[dict(priority=0, is_sequential=False, resource="thread"), dict(priority=0, is_sequential=False, resource="thread"), dict(priority=9, is_sequential=False, resource="thread")],
          flags={}, rets=[1] * 3, fails=[], maxc=1, is_async=True, mode="exec", target=None, exclude=[2], root=None),
+    # flags taken from two items of one result, the flagged nodes then reconfigured (they keep flag AND key path)
+    dict(kind="sched", n=3, edges=[], attrs=[dict(priority=0, is_sequential=False, resource="thread"), dict(priority=1, is_sequential=False, resource="thread"), dict(priority=2, is_sequential=False, resource="thread")],
+         flags={"1": ["node", 0, 0], "2": ["node", 0, 1]}, rets=[[1, 0], 1, 1], fails=[], maxc=2, is_async=False, mode="call",
+         reconf=dict(pre=[dict(priority=0, is_sequential=False), dict(priority=2, is_sequential=False), dict(priority=1, is_sequential=False)], pre_maxc=2, by_tag=False, call_first=False,
+                     steps=[{"nodes": {"n1": {"priority": 1}, "n2": {"priority": 2}}}])),
+    dict(kind="sched", n=3, edges=[], attrs=[dict(priority=0, is_sequential=False, resource="thread"), dict(priority=1, is_sequential=False, resource="main-thread"), dict(priority=2, is_sequential=True, resource="thread")],
+         flags={"1": ["node", 0, 1], "2": ["node", 0, 0]}, rets=[[0, 1], 1, 1], fails=[], maxc=1, is_async=True, mode="call",
+         reconf=dict(pre=[dict(priority=0, is_sequential=False), dict(priority=1, is_sequential=False), dict(priority=2, is_sequential=False)], pre_maxc=1, by_tag=False, call_first=True,
+                     steps=[{"nodes": {"n2": {"is_sequential": True}}}, {"nodes": {"n1": {"priority": 1}}}])),
     # called once, then reconfigured (priorities swapped), then called again
     dict(kind="sched", n=3, edges=[], attrs=[dict(priority=1, is_sequential=False, resource="thread"), dict(priority=2, is_sequential=False, resource="thread"), dict(priority=3, is_sequential=False, resource="thread")],
          flags={}, rets=[1] * 3, fails=[], maxc=1, is_async=False, mode="call",
